@@ -84,6 +84,7 @@ class Campaign:
         self.buckets = {}  # sig -> (case, detail, count)
         self.excluded = 0
         self.extra_cov = {}
+        self.nontrivial_extra = 0  # distinct-by-construction enumerated cases
         self.t0 = time.time()
 
     # -- recording -----------------------------------------------------
@@ -131,6 +132,7 @@ class Campaign:
             "buckets": {k: v for k, v in self.buckets.items()},
             "excluded": self.excluded,
             "extra_cov": self.extra_cov,
+            "nontrivial_extra": self.nontrivial_extra,
         }
 
     def merge(self, d):
@@ -150,6 +152,7 @@ class Campaign:
             else:
                 self.buckets[sig][2] += cnt
         self.excluded += d["excluded"]
+        self.nontrivial_extra += d.get("nontrivial_extra", 0)
         for k, v in d.get("extra_cov", {}).items():
             if isinstance(v, (int, float)) and isinstance(self.extra_cov.get(k), (int, float)):
                 self.extra_cov[k] += v
@@ -240,7 +243,7 @@ def write_evidence(mod, camp, violations, known_seen, wall):
     cov = {
         "evaluations": int(camp.evaluations),
         "cases": int(camp.cases),
-        "distinct_nontrivial": len(camp.nontrivial),
+        "distinct_nontrivial": len(camp.nontrivial) + int(camp.nontrivial_extra),
         "rule": mod.RULE,
         "samples": samples[:5],
         "classes": camp.classes,
@@ -302,7 +305,7 @@ def finish(mod, camp):
     if camp.cases > 0:
         for name, frac in floors.items():
             if name == "nontrivial":
-                got = len(camp.nontrivial) / float(camp.cases)
+                got = (len(camp.nontrivial) + camp.nontrivial_extra) / float(max(camp.cases, camp.evaluations if camp.nontrivial_extra else 0))
             else:
                 got = camp.classes.get(name, 0) / float(camp.cases)
             if got < frac:
